@@ -33,10 +33,13 @@ type Pop struct {
 	Trigger string `json:"trigger"`  // cycle | store | limit-change
 	NewSize int    `json:"new_size"` // store trigger: size of the new entry
 	Big     bool   `json:"big"`      // sizes are multiples of 1 MiB (weighting family)
+	// BudgetAfter > 0: after the limit was set, memory_budget_percent is changed to this value (never the binding
+	// limit: it is a share of the machine's memory) - the configured limit still governs
+	BudgetAfter int `json:"budget_after,omitempty"`
 }
 
 func (p Pop) String() string {
-	return fmt.Sprintf("%s shards=%d sizes=%v lru-order=%v limit=%d%% trigger=%s new=%d", p.Backend, p.Shards, p.Sizes, p.Access, p.LimitPc, p.Trigger, p.NewSize)
+	return fmt.Sprintf("%s shards=%d sizes=%v lru-order=%v limit=%d%% trigger=%s new=%d budget-after=%d", p.Backend, p.Shards, p.Sizes, p.Access, p.LimitPc, p.Trigger, p.NewSize, p.BudgetAfter)
 }
 
 const spacing = 6 * time.Millisecond
@@ -52,7 +55,7 @@ func present(k *cachekit.Kit, n int) map[int]bool {
 }
 
 var subEvict = ev.Register("eviction-order",
-	"populations of 2-8 entries (sizes < 1 MiB for the ordering claim, 1-4 MiB for the weighting family) stored and then touched in a drawn order with >= 6 ms spacing, a limit drawn relative to the total (50 / 90 / 100 / 101-130 %), and a trigger: synchronous cleanup cycle, store of a new entry, or run-time max_cache_size change followed by cycles; oracle: below the limit nothing is evicted; at or over it the survivors are the population minus the shortest least-recently-used-first prefix that brings the total to <= 80 % of the limit (entries sharing the storing key's shard on the memory backend are exempt; if they prevent reaching the target the case is classified exempt); for MiB-sized entries the dominance rule (no entry is evicted while an older and not smaller one survives); non-trivial = an eviction happened and left a survivor; distinct by (ranks evicted, shard pattern, trigger, backend)",
+	"populations of 2-8 entries (sizes < 1 MiB for the ordering claim, 1-4 MiB for the weighting family) stored and then touched in a drawn order with >= 6 ms spacing, a limit drawn relative to the total (50 / 90 / 100 / 101-130 %), and a trigger: synchronous cleanup cycle, store of a new entry, or run-time max_cache_size change followed by cycles; optionally memory_budget_percent is changed after the limit was set (it never binds); oracle: below the limit nothing is evicted; at or over it the survivors are the population minus the shortest least-recently-used-first prefix that brings the total to <= 80 % of the limit (entries sharing the storing key's shard on the memory backend are exempt; if they prevent reaching the target the case is classified exempt); for MiB-sized entries the dominance rule (no entry is evicted while an older and not smaller one survives); non-trivial = an eviction happened and left a survivor; distinct by (ranks evicted, shard pattern, trigger, backend)",
 	func(p Pop, o *ev.Obs) *ev.Failure {
 		n := len(p.Sizes)
 		total := int64(0)
@@ -89,6 +92,21 @@ var subEvict = ev.Register("eviction-order",
 		if startLimit == limit {
 			k.SetLimit(limit)
 			time.Sleep(3 * time.Millisecond) // the backends learn the limit through an asynchronous notification
+		}
+		budgetChange := func() *ev.Failure {
+			if p.BudgetAfter <= 0 {
+				return nil
+			}
+			if _, err := config.UpdatePartialFromConfig(k.Cfg, map[string]any{"cache": map[string]any{"memory": map[string]any{"memory_budget_percent": p.BudgetAfter}}}); err != nil {
+				return ev.Failf("evict.harness", "budget update rejected: %v", err)
+			}
+			time.Sleep(3 * time.Millisecond)
+			return nil
+		}
+		if p.Trigger != "limit-change" {
+			if f := budgetChange(); f != nil {
+				return f
+			}
 		}
 		newKey := n
 		exempt := map[int]bool{}
@@ -224,6 +242,9 @@ func drawPop(t *rapid.T) Pop {
 		Trigger: rapid.SampledFrom([]string{"cycle", "cycle", "store", "limit-change"}).Draw(t, "trigger"),
 		NewSize: rapid.SampledFrom([]int{1, 1000, 30000}).Draw(t, "new"),
 		Big:     rapid.IntRange(0, 5).Draw(t, "big") == 0,
+	}
+	if rapid.IntRange(0, 2).Draw(t, "budget-change") == 0 {
+		p.BudgetAfter = rapid.SampledFrom([]int{30, 50, 75, 100}).Draw(t, "budget")
 	}
 	n := rapid.IntRange(2, 8).Draw(t, "n")
 	for i := 0; i < n; i++ {
